@@ -474,7 +474,9 @@ def run(res, tier, seed):
                 if i in rejects:
                     ev = vlib.read_ndjson(paths[i])
                     ps["violations"] += 1
-                    candidates.append((rejects[i]["msg"][:400], ev[:rejects[i]["line"] + 1], {"scenario": n, "k": 0, "steps": scen[n][1]}, build, mode))
+                    key = classify(ev, rejects[i])          # no request was refused: never a listed finding
+                    candidates.append((rejects[i]["msg"][:400] + ((" | class " + key) if key else ""), ev[:rejects[i]["line"] + 1],
+                                       {"scenario": n, "k": 0, "steps": scen[n][1]}, build, mode))
                 else:
                     stats["accepted"] += 1; ps["accepted"] += 1
                     if build == "hooks" and n == "streams":
